@@ -35,12 +35,13 @@ def main():
         rc, out = sh(["git", "-C", "/repo", "worktree", "add", "--detach", wt, "HEAD"], "/")
         assert rc == 0, out
         env = {"PYTHONPATH": os.path.join(wt, "src")}
-        shutil.copy(os.path.join(src, "demo.py"), os.path.join(wt, "_demo.py"))
-        rc0, out0 = sh(["/venv/bin/python", "_demo.py"], wt, env)
+        os.makedirs(os.path.join(wt, "out", "1"), exist_ok=True)          # same layout the demos were written in: <worktree>/out/<n>/demo.py
+        shutil.copy(os.path.join(src, "demo.py"), os.path.join(wt, "out", "1", "demo.py"))
+        rc0, out0 = sh(["/venv/bin/python", "out/1/demo.py"], wt, env)
         report["demo_pristine_exit"] = rc0
         rc, out = sh(["git", "apply", os.path.join(src, "patch.diff")], wt)
         assert rc == 0, "patch does not apply: " + out
-        rc1, out1 = sh(["/venv/bin/python", "_demo.py"], wt, env)
+        rc1, out1 = sh(["/venv/bin/python", "out/1/demo.py"], wt, env)
         report["demo_patched_exit"] = rc1
         report["demo_patched_tail"] = out1[-600:]
         rct, outt = sh(["/venv/bin/python"] + TESTS, wt, env)
